@@ -7,7 +7,7 @@ use std::{
 };
 
 use crate::{
-    exec::TESTDATA,
+    exec::testdata,
     plan::{Fault, Plan, Prng},
 };
 
@@ -58,7 +58,7 @@ pub fn closure(source_rel: &str) -> Vec<String> {
         // not part of the corpus tree that gets copied and corrupted
         return Vec::new();
     }
-    let root = Path::new(TESTDATA);
+    let root = testdata();
     let src = root.join(source_rel);
     let mut files = Vec::new();
     if src.is_dir() {
@@ -104,7 +104,7 @@ impl Tree {
     pub fn ensure(root: &Path) -> Tree {
         if !root.join(".complete").exists() {
             let _ = fs::remove_dir_all(root);
-            copy_tree(Path::new(TESTDATA), root);
+            copy_tree(testdata(), root);
             let _ = fs::write(root.join(".complete"), b"1");
         }
         Tree { root: root.to_path_buf(), touched: Vec::new() }
@@ -137,7 +137,7 @@ impl Tree {
     /// Undo every fault applied since the last restore
     pub fn restore(&mut self) {
         for rel in self.touched.drain(..) {
-            let pristine = Path::new(TESTDATA).join(&rel);
+            let pristine = testdata().join(&rel);
             let mine = self.root.join(&rel);
             if pristine.is_dir() {
                 let _ = fs::remove_dir_all(&mine);
